@@ -329,12 +329,19 @@ fn indent(s: &str, n: usize) -> String {
     s.lines().map(|l| if l.trim().is_empty() { String::new() } else { format!("{pad}{}", l.trim_end()) }).collect::<Vec<_>>().join("\n")
 }
 
+fn subst_i(txt: &str, v: Option<&String>, hi: Option<&String>) -> String {
+    let t = match hi { Some(h) if !h.is_empty() => txt.replace("$hi", &format!("({h})")), _ => txt.to_string() };
+    match v { Some(v) if !v.is_empty() => t.replace("$i", v), _ => t }
+}
+
 /// Replace the marker statements printed by prettyplease with the side-car text.
 fn splice(printed: &str, d: &Directive, nloops: usize, nrets: usize) -> Result<String, String> {
     let mut lines: Vec<String> = printed.lines().map(|s| s.to_string()).collect();
     // header
     let mut i = 0;
     let mut out: Vec<String> = Vec::new();
+    let mut loop_var: BTreeMap<usize, String> = BTreeMap::new();
+    let mut loop_hi: BTreeMap<usize, String> = BTreeMap::new();
     while i < lines.len() {
         let t = lines[i].trim().to_string();
         if t == "__vx_hdr!();" {
@@ -363,10 +370,26 @@ fn splice(printed: &str, d: &Directive, nloops: usize, nrets: usize) -> Result<S
             }
             let head = p[..p.len() - 1].trim_end().to_string();
             let ind = prev.len() - prev.trim_start().len();
+            // `$i` in this loop's side-car sections names the loop's own index variable, whatever the normaliser called it
+            {
+                let h = head.trim_start();
+                let h = h.strip_prefix("for ").or_else(|| h.strip_prefix("while ")).unwrap_or("");
+                let v: String = h.chars().take_while(|c| c.is_alphanumeric() || *c == '_').collect();
+                // `$hi`: the loop's upper bound as written after `..` (for-range loops) or after `<` (while loops)
+                let hi: String = if let Some(p) = h.find("..") { h[p + 2..].trim().to_string() } else if let Some(p) = h.find('<') { h[p + 1..].trim().to_string() } else { String::new() };
+                loop_hi.insert(k, hi.clone());
+                if let Ok(pth) = std::env::var("VX_LOOPVARS") {
+                    use std::io::Write;
+                    if let Ok(mut f) = std::fs::OpenOptions::new().create(true).append(true).open(pth) {
+                        let _ = writeln!(f, "{}|{}|{}|{}|{}|{}", d.file, d.selector.join(" "), d.line, k, v, hi);
+                    }
+                }
+                loop_var.insert(k, v);
+            }
             out.push(head);
             if let Some(ls) = d.loops.get(&k) {
                 if !ls.invariant.trim().is_empty() {
-                    out.push(indent(&ls.invariant, ind + 4));
+                    out.push(indent(&subst_i(&ls.invariant, loop_var.get(&k), loop_hi.get(&k)), ind + 4));
                 }
                 out.push(format!("{}{{", " ".repeat(ind)));
             } else {
@@ -376,21 +399,21 @@ fn splice(printed: &str, d: &Directive, nloops: usize, nrets: usize) -> Result<S
             if let Some(ls) = d.loops.get(&k) {
                 if !ls.body_prologue.trim().is_empty() {
                     let ind = lines[i].len() - lines[i].trim_start().len();
-                    out.push(indent(&ls.body_prologue, ind));
+                    out.push(indent(&subst_i(&ls.body_prologue, loop_var.get(&k), loop_hi.get(&k)), ind));
                 }
             }
         } else if let Some(k) = marker_arg(&t, "__vx_loop_end") {
             if let Some(ls) = d.loops.get(&k) {
                 if !ls.body_epilogue.trim().is_empty() {
                     let ind = lines[i].len() - lines[i].trim_start().len();
-                    out.push(indent(&ls.body_epilogue, ind));
+                    out.push(indent(&subst_i(&ls.body_epilogue, loop_var.get(&k), loop_hi.get(&k)), ind));
                 }
             }
         } else if let Some(k) = marker_arg(&t, "__vx_after_loop") {
             if let Some(ls) = d.loops.get(&k) {
                 if !ls.after.trim().is_empty() {
                     let ind = lines[i].len() - lines[i].trim_start().len();
-                    out.push(indent(&ls.after, ind));
+                    out.push(indent(&subst_i(&ls.after, loop_var.get(&k), loop_hi.get(&k)), ind));
                 }
             }
         } else if let Some(k) = marker_arg(&t, "__vx_before_ret") {
